@@ -2,6 +2,7 @@
 from __future__ import annotations
 
 import copy
+import inspect
 
 from .. import scaffolds as S
 from ..engine_ch import Free, Harness
@@ -19,7 +20,7 @@ EXPLANATION = (
 )
 BOUNDS = {
     "quick": "(1) rulers of 3 rules (symbolic enabled flags, 3 alt layouts), 2 callers on 3 chain pairs, 1 pre-emption at any statement, first use and just-invalidated cache; "
-             "(2) fixed documents, 43 callbacks x invocation index; (3) FREE(2)+newline (js-default) and 4 scaffolds",
+             "(2) fixed documents, 46 callbacks (43 rules/render rules/highlight + the validateLink/normalizeLink/normalizeLinkText hooks) x invocation index; (3) FREE(2)+newline (js-default) and 4 scaffolds",
     "thorough": "(1) 2 pre-emptions, and 3 callers with 2 pre-emptions; (2) fresh and warm instances, one free character in A; (3) both presets",
 }
 OUTSIDE = ("pre-emption inside one statement (bytecode granularity); more pre-emptions/threads than the bound; transient writes to shared state undone within "
@@ -235,8 +236,24 @@ class Reenter(c14.Injector):
             self.raised = True
 
 
+MD_METHODS = ["validateLink", "normalizeLink", "normalizeLinkText"]
+
+
+def install_md_methods(md, inj, base_idx):
+    """Wrap the link hooks of the instance (documented extension points: plugins assign md.validateLink etc.)."""
+    for k, nm in enumerate(MD_METHODS):
+        orig = getattr(md, nm)
+
+        def wrapper(*a, _orig=orig, _idx=base_idx + k, **kw):
+            inj.hit(_idx)
+            return _orig(*a, **kw)
+
+        setattr(md, nm, wrapper)
+    return [("md-method", "instance", nm) for nm in MD_METHODS]
+
+
 def _re_free(params):
-    fr = [Free("which", kind="int", lo=params.get("lo", 0), hi=params.get("hi", 42)), Free("i", kind="int", lo=0, hi=params.get("imax", 60))]
+    fr = [Free("which", kind="int", lo=params.get("lo", 0), hi=params.get("hi", 45)), Free("i", kind="int", lo=0, hi=params.get("imax", 60))]
     if params.get("free_a"):
         fr.append(Free("a", exclude="\r\0"))
     return fr
@@ -253,7 +270,9 @@ def _re_run(params, values):
     none = c14.Injector(-1, -1, "ValueError")
     with no_tracing():
         cbs = c14.install(md, inj)
+        cbs = cbs + install_md_methods(md, inj, len(cbs))
         c14.install(solo, none)
+        install_md_methods(solo, none, len(cbs) - len(MD_METHODS))
     if which >= len(cbs):
         return [], "assume: callback index out of range"
     doc_a = DOC_A if not params.get("free_a") else DOC_A[:2] + values["a"] + DOC_A[3:]
@@ -293,6 +312,13 @@ def _module_state():
             if isinstance(v, (dict, list, set)):
                 try:
                     out[f"{name}.{k}"] = copy.deepcopy(v)
+                except Exception:
+                    out[f"{name}.{k}"] = repr(type(v))
+            elif (not isinstance(v, (type, str, int, float, bool, tuple, frozenset)) and not callable(v) and not inspect.ismodule(v)
+                  and type(v).__module__.startswith("markdown_it") and hasattr(v, "__dict__")):
+                # module-level instances of the library's own classes (scratch/result objects)
+                try:
+                    out[f"{name}.{k}"] = copy.deepcopy(vars(v))
                 except Exception:
                     out[f"{name}.{k}"] = repr(type(v))
     return out
@@ -370,7 +396,7 @@ def jobs(tier, seed):
                 jobs.append({"harness": "schedule", "params": {"layout": layout, "callers": 3, "preempt": 2, "invalidated": inval, "pmax": 45, "chains": [0, 1, 2]},
                              "weight": 60, "cpu_cap": 12000, "wall_cap": 13000})
     cfg = dict(S.JS)
-    ranges = [(0, 6), (7, 11), (12, 17), (18, 18), (19, 21), (22, 25), (26, 29), (30, 33), (34, 38), (39, 42)]
+    ranges = [(0, 6), (7, 11), (12, 17), (18, 18), (19, 21), (22, 25), (26, 29), (30, 33), (34, 38), (39, 42), (43, 45)]
     for lo, hi in ranges:
         for warm in ((False,) if tier == "quick" else (False, True)):
             jobs.append({"harness": "reenter", "params": {"cfg": cfg, "lo": lo, "hi": hi, "warm": warm, "free_a": tier == "thorough" and lo in (7, 18)},
